@@ -134,6 +134,13 @@ pub fn parse_swift_chars(input: &str, field_name: &str) -> Result<String, ParseE
 
 /// Parse BIC code (8 or 11 characters)
 pub fn parse_bic(input: &str) -> Result<String, ParseError> {
+    // Byte offsets below assume one byte per character
+    if !input.is_ascii() {
+        return Err(ParseError::InvalidFormat {
+            message: "BIC must contain only ASCII characters".to_string(),
+        });
+    }
+
     if input.len() != 8 && input.len() != 11 {
         return Err(ParseError::InvalidFormat {
             message: format!("BIC must be 8 or 11 characters, found {}", input.len()),
@@ -490,6 +497,13 @@ pub fn format_swift_amount_for_currency(amount: f64, currency: &str) -> String {
 
 /// Parse date in YYMMDD format
 pub fn parse_date_yymmdd(input: &str) -> Result<NaiveDate, ParseError> {
+    // Byte offsets below assume one byte per character
+    if !input.is_ascii() {
+        return Err(ParseError::InvalidFormat {
+            message: "Date must contain only ASCII characters".to_string(),
+        });
+    }
+
     if input.len() != 6 {
         return Err(ParseError::InvalidFormat {
             message: format!(
@@ -525,6 +539,13 @@ pub fn parse_date_yymmdd(input: &str) -> Result<NaiveDate, ParseError> {
 
 /// Parse date in YYYYMMDD format
 pub fn parse_date_yyyymmdd(input: &str) -> Result<NaiveDate, ParseError> {
+    // Byte offsets below assume one byte per character
+    if !input.is_ascii() {
+        return Err(ParseError::InvalidFormat {
+            message: "Date must contain only ASCII characters".to_string(),
+        });
+    }
+
     if input.len() != 8 {
         return Err(ParseError::InvalidFormat {
             message: format!(
@@ -557,6 +578,13 @@ pub fn parse_date_yyyymmdd(input: &str) -> Result<NaiveDate, ParseError> {
 
 /// Parse time in HHMM format
 pub fn parse_time_hhmm(input: &str) -> Result<NaiveTime, ParseError> {
+    // Byte offsets below assume one byte per character
+    if !input.is_ascii() {
+        return Err(ParseError::InvalidFormat {
+            message: "Time must contain only ASCII characters".to_string(),
+        });
+    }
+
     if input.len() != 4 {
         return Err(ParseError::InvalidFormat {
             message: format!(
@@ -584,6 +612,13 @@ pub fn parse_time_hhmm(input: &str) -> Result<NaiveTime, ParseError> {
 
 /// Parse datetime in YYMMDDHHMM format
 pub fn parse_datetime_yymmddhhmm(input: &str) -> Result<NaiveDateTime, ParseError> {
+    // Byte offsets below assume one byte per character
+    if !input.is_ascii() {
+        return Err(ParseError::InvalidFormat {
+            message: "DateTime must contain only ASCII characters".to_string(),
+        });
+    }
+
     if input.len() != 10 {
         return Err(ParseError::InvalidFormat {
             message: format!(
